@@ -27,6 +27,9 @@ impl Check for C13 {
     fn id(&self) -> &'static str {
         "C13"
     }
+    fn panic_sig_of(&self, text: &str) -> String {
+        panic_sig_fn(text)
+    }
     fn level(&self) -> &'static str {
         "fault_enumeration"
     }
@@ -95,7 +98,7 @@ impl Check for C13 {
             let r = catch(|| AutoCommit::load_with_options(prefix, LoadOptions::new().text_encoding(enc).on_partial_load(OnPartialLoad::Ignore)));
             match r {
                 Err(p) => {
-                    cx.violation(&panic_sig(&p), format!("load(partial allowed) of a {cut}-byte prefix panicked: {p}"), detail(String::new()));
+                    cx.violation(&panic_sig_fn(&p), format!("load(partial allowed) of a {cut}-byte prefix panicked: {p}"), detail(String::new()));
                     return;
                 }
                 Ok(Err(e)) => {
@@ -145,7 +148,7 @@ impl Check for C13 {
             let r = catch(|| AutoCommit::load_with_options(prefix, LoadOptions::new().text_encoding(enc).on_partial_load(OnPartialLoad::Error)));
             match r {
                 Err(p) => {
-                    cx.violation(&panic_sig(&p), format!("strict load of a {cut}-byte prefix panicked: {p}"), detail(String::new()));
+                    cx.violation(&panic_sig_fn(&p), format!("strict load of a {cut}-byte prefix panicked: {p}"), detail(String::new()));
                     return;
                 }
                 Ok(Ok(_)) => {
@@ -172,6 +175,9 @@ impl Check for C13 {
 impl Check for C14 {
     fn id(&self) -> &'static str {
         "C14"
+    }
+    fn panic_sig_of(&self, text: &str) -> String {
+        panic_sig_fn(text)
     }
     fn level(&self) -> &'static str {
         "fault_enumeration"
@@ -252,7 +258,7 @@ impl Check for C14 {
         let mut test = |cx: &mut Ctx, mutated: &[u8], what: String| -> bool {
             match catch(|| load_enc(mutated, enc)) {
                 Err(p) => {
-                    cx.violation(&panic_sig(&p), format!("load of a {kind} file with {what} panicked: {p}"), json!({"file_len": file.len()}));
+                    cx.violation(&panic_sig_fn(&p), format!("load of a {kind} file with {what} panicked: {p}"), json!({"file_len": file.len()}));
                     false
                 }
                 Ok(Err(_)) => {
@@ -398,6 +404,9 @@ impl Check for C15 {
     fn id(&self) -> &'static str {
         "C15"
     }
+    fn panic_sig_of(&self, text: &str) -> String {
+        panic_sig_fn(text)
+    }
     fn cases(&self, tier: Tier) -> u64 {
         tier.pick(480, 40_000)
     }
@@ -469,7 +478,7 @@ impl Check for C15 {
             cx.add("input_bytes", input.len() as u64);
             let before: u64 = cx.counters.iter().filter(|(k, _)| k.starts_with("accepted_")).map(|(_, v)| *v).sum();
             if let Some((dec, p)) = all_byte_decoders(cx, &input, enc, &mut target) {
-                cx.violation(&format!("{}|{dec}", panic_sig(&p)), format!("{dec} panicked on a {}-byte input ({} mutant of a {} sample): {p}", input.len(), how, s.kind), json!({"decoder": dec, "mutation": how, "sample_kind": s.kind, "input_hex": hex::encode(&input[..input.len().min(600)]), "input_len": input.len()}));
+                cx.violation(&format!("{}|{dec}", panic_sig_fn(&p)), format!("{dec} panicked on a {}-byte input ({} mutant of a {} sample): {p}", input.len(), how, s.kind), json!({"decoder": dec, "mutation": how, "sample_kind": s.kind, "input_hex": hex::encode(&input[..input.len().min(600)]), "input_len": input.len()}));
                 return;
             }
             let after: u64 = cx.counters.iter().filter(|(k, _)| k.starts_with("accepted_")).map(|(_, v)| *v).sum();
@@ -485,7 +494,7 @@ impl Check for C15 {
             for s in str_mutants(rng, base) {
                 cx.count("string_inputs");
                 if let Some((dec, p)) = all_str_decoders(cx, &s, &target) {
-                    cx.violation(&format!("{}|{dec}", panic_sig(&p)), format!("{dec}({s:?}) panicked: {p}"), json!({"decoder": dec, "input": s}));
+                    cx.violation(&format!("{}|{dec}", panic_sig_fn(&p)), format!("{dec}({s:?}) panicked: {p}"), json!({"decoder": dec, "input": s}));
                     return;
                 }
             }
@@ -501,6 +510,9 @@ impl Check for C15 {
 impl Check for C16 {
     fn id(&self) -> &'static str {
         "C16"
+    }
+    fn panic_sig_of(&self, text: &str) -> String {
+        panic_sig_fn(text)
     }
     fn cases(&self, tier: Tier) -> u64 {
         tier.pick(480, 40_000)
@@ -542,7 +554,7 @@ impl Check for C16 {
             };
             let loaded = match catch(|| load_enc(&candidate, enc)) {
                 Err(p) => {
-                    cx.violation(&format!("{}|load", panic_sig(&p)), format!("load panicked on a mutated document ({how}): {p}"), json!({"mutation": how, "input_hex": hex::encode(&candidate[..candidate.len().min(800)])}));
+                    cx.violation(&format!("{}|load", panic_sig_fn(&p)), format!("load panicked on a mutated document ({how}): {p}"), json!({"mutation": how, "input_hex": hex::encode(&candidate[..candidate.len().min(800)])}));
                     return;
                 }
                 Ok(Err(_)) => continue,
@@ -557,7 +569,7 @@ impl Check for C16 {
             let o = match catch(|| observe(&d, None)) {
                 Ok(o) => o,
                 Err(p) => {
-                    cx.violation(&format!("{}|reads", panic_sig(&p)), format!("reading an accepted mutated document ({how}) panicked: {p}"), detail("reads"));
+                    cx.violation(&format!("{}|reads", panic_sig_fn(&p)), format!("reading an accepted mutated document ({how}) panicked: {p}"), detail("reads"));
                     return;
                 }
             };
@@ -580,7 +592,7 @@ impl Check for C16 {
             });
             match r {
                 Err(p) => {
-                    cx.violation(&format!("{}|save-load", panic_sig(&p)), format!("save/load of an accepted mutated document ({how}) panicked: {p}"), detail("save-load"));
+                    cx.violation(&format!("{}|save-load", panic_sig_fn(&p)), format!("save/load of an accepted mutated document ({how}) panicked: {p}"), detail("save-load"));
                     return;
                 }
                 Ok(Err(e)) => {
@@ -608,7 +620,7 @@ impl Check for C16 {
             cx.count("edited_after_accept");
             match r {
                 Err(p) => {
-                    cx.violation(&format!("{}|edit", panic_sig(&p)), format!("editing an accepted mutated document ({how}) panicked: {p}"), detail("edit"));
+                    cx.violation(&format!("{}|edit", panic_sig_fn(&p)), format!("editing an accepted mutated document ({how}) panicked: {p}"), detail("edit"));
                     return;
                 }
                 Ok(bytes) => {
@@ -628,7 +640,7 @@ impl Check for C16 {
                 let _ = p2.merge(&mut d2);
                 let _ = observe_opts(&p2, None, false);
             }) {
-                cx.violation(&format!("{}|merge", panic_sig(&p)), format!("merging an accepted mutated document ({how}) with a pristine replica panicked: {p}"), detail("merge"));
+                cx.violation(&format!("{}|merge", panic_sig_fn(&p)), format!("merging an accepted mutated document ({how}) with a pristine replica panicked: {p}"), detail("merge"));
                 return;
             }
         }
@@ -673,6 +685,15 @@ fn hostile_message(rng: &mut Rng, heads: &[ChangeHash]) -> (Vec<u8>, String) {
 impl Check for C17 {
     fn id(&self) -> &'static str {
         "C17"
+    }
+    fn panic_sig_of(&self, text: &str) -> String {
+        panic_sig_fn(text)
+    }
+    fn alloc_death_is_violation(&self) -> bool {
+        true
+    }
+    fn case_cpu_limit_s(&self) -> u64 {
+        120
     }
     fn cases(&self, tier: Tier) -> u64 {
         tier.pick(480, 40_000)
@@ -840,6 +861,9 @@ impl Check for C17 {
 impl Check for C39 {
     fn id(&self) -> &'static str {
         "C39"
+    }
+    fn panic_sig_of(&self, text: &str) -> String {
+        panic_sig_fn(text)
     }
     fn cases(&self, tier: Tier) -> u64 {
         tier.pick(480, 40_000)
